@@ -329,6 +329,40 @@ def case_channel(ctx, rng, idx):
     ctx.within("equalised-equals-input", err, 512 * EPS * fft * kappa * xm,
                "memory=%s%s" % (mclass, ":cp=fft" if cp == fft else ""),
                {**tag, "kappa": kappa, "n": n})
+    # the frequency-domain shortcut of the channel on the OFDM grid: the used
+    # subcarriers (in the order the modulator reports them) multiplied block by
+    # block, then equalised with the response reported for THAT transmission
+    if idx % 3 == 0:
+        nb = int(rng.integers(1, 4))
+        xf = rand_c(rng, nb * used)
+        uidx = np.asarray(o.get_used_subcarrier_indexes())
+        okc, yf = ctx.call("equalised-equals-input", ch.corrupt_data_in_freq_domain, xf, fft,
+                           uidx.copy(), cls="freq-domain-raised", detail=tag)
+        if okc:
+            resp2 = ch.get_last_impulse_response()
+            okc, out2 = ctx.call("equalised-equals-input", eq.equalize_data, np.asarray(yf), resp2,
+                                 cls="equalize_data(freq-domain)", detail=tag)
+            if okc:
+                out2 = np.asarray(out2).ravel()
+                h2 = np.asarray(resp2.tap_values_sparse)
+                ti2 = np.asarray(resp2.tap_indexes_sparse).astype(int)
+                kk = np.arange(fft)
+                worst = 1.0
+                for b in range(h2.shape[-1]):
+                    Hb = np.zeros(fft, dtype=complex)
+                    for v, dl in zip(h2[:, b], ti2):
+                        Hb += v * np.exp(-2j * np.pi * kk * dl / fft)
+                    Hub = Hb[usedbins]
+                    if np.min(np.abs(Hub)) < 1e-6 * np.max(np.abs(Hub)):
+                        worst = float("inf")
+                        break
+                    worst = max(worst, float(np.max(np.abs(Hb)) / np.min(np.abs(Hub))))
+                if np.isfinite(worst) and out2.size >= xf.size:
+                    ctx.within("equalised-equals-input", float(np.max(np.abs(out2[:xf.size] - xf))),
+                               512 * EPS * fft * worst * (float(np.max(np.abs(xf))) + 1e-300),
+                               "freq-domain-shortcut", {**tag, "blocks": nb, "kappa": worst})
+                else:
+                    ctx.tally("ill-conditioned-channel")
     ctx.sig("ch", fft, cls3(cp, 0, fft), cls3(used, 2, maxused), mclass, len(delays) > 1)
     if idx % 40 == 0:
         ctx.sample("channel", {k2: v for k2, v in tag.items()})
